@@ -161,10 +161,46 @@ def classify(w, i, lay, text):
     return 'C05 T: `/` misread (%s after %s%s)' % (w[i], w[i - 1] if i else '<start>', ', layout with line terminator/comment' if lay.strip(' \t') else '')
 
 
+RAW_SPELL = {'LINE_TERMINATOR': '\n', 'LINE_COMMENT': '//c\n', 'BLOCK_COMMENT': '/*c*/', 'BLOCK_COMMENT_ML': '/*c\nd*/', 'STRING_ML': "'a\\\nb'",
+             'DIV': '/r/', 'REGEX': '/r/'}
+
+
+def lexer_types(text, with_comments=False):
+    """types of the real tokens the real Lexer reads from text (AUTOSEMI included), or an error marker"""
+    from calmjs.parse.lexers.es5 import Lexer
+    from calmjs.parse.exceptions import ECMASyntaxError
+    L = Lexer(with_comments=with_comments)
+    L.input(text)
+    out = []
+    try:
+        for _ in range(400):
+            t = L.token()
+            if t is None:
+                break
+            out.append(t.type)
+    except ECMASyntaxError as e:
+        out.append('error')
+    return out
+
+
+def replay_raw_slash(w, sp):
+    ka = w['raw_kinds']
+    kb = [k for k in ka if k not in rawsx.LAYOUT]
+    ta = ' '.join(RAW_SPELL.get(k, sp.get(k, k)) for k in ka)
+    tb = ' '.join(RAW_SPELL.get(k, sp.get(k, k)) for k in kb)
+    a, b = lexer_types(ta, w.get('with_comments', False)), lexer_types(tb, w.get('with_comments', False))
+    # the reading of the last slash item: a regex literal is one token, a division gives DIV ID DIV
+    face = lambda ts: 'REGEX' if ts[-1:] == ['REGEX'] else ('DIV' if ts[-3:] == ['DIV', 'ID', 'DIV'] else 'error')
+    legit = len(kb) >= 2 and kb[-2] in ('BREAK', 'CONTINUE', 'RETURN', 'THROW')
+    return (face(a) != face(b) and not legit), 'with layout %r the final `/r/` is read as %s, without it (%r) as %s' % (ta, face(a), tb, face(b))
+
+
 def replay(d):
     w = d['input']
     p = boot.fresh_parser()
     sp = actions.spellings(type(p.lexer))
+    if 'raw_kinds' in w:
+        return replay_raw_slash(w, sp)
     c03mod._ENGINE['p'] = p
     ref = engine_tree(w['tokens'], sp)
     try:
@@ -240,8 +276,14 @@ def main():
             samples.append({'harness': 'slash', 'args': repr(args), 'stats': st})
         for msg, w in viols[:1]:
             names = dom.names
-            kinds = {k: names[int(v)] for k, v in w.items() if k.startswith('k') and str(v).isdigit()}
-            run.inconclusive_('slash decision depends on layout for raw kinds %r (%s) - no text replay built for this class' % (kinds, msg[:100]))
+            kinds = [names[int(v)] for k, v in sorted(w.items(), key=lambda kv: int(kv[0][1:]) if kv[0][1:].isdigit() else -1) if re.fullmatch(r'k\d+', k) and str(v).isdigit()]
+            rpd = {'property': 'C05', 'input': {'raw_kinds': kinds, 'with_comments': bool(args[2])}}
+            ok, detail = rp.run_in_subprocess(rpd)
+            if ok:
+                prev = [k for k in kinds if k not in rawsx.LAYOUT][-2:-1]
+                run.violation('C05 S: the reading of `/` after %s changes when layout is inserted' % (prev[0] if prev else 'the start'), detail[:400], rpd)
+            else:
+                run.inconclusive_('slash decision depends on layout for raw kinds %r (%s) - did not reproduce on text: %s' % (kinds, msg[:100], detail[:160]))
     # known findings still there?
     for f in run.known:
         probe = {KNOWN_HEADER: (['IF', 'LPAREN', 'ID', 'RPAREN', 'REGEX', 'SEMI'], 'if ( a )\n/r/ ;'),
